@@ -187,6 +187,17 @@ def mapE {α β ε : Type} (f : α → Except ε β) : List α → Except ε (Li
       | .error e => .error e
       | .ok bs => .ok (b :: bs)
 
+/-- sequencing in `Except` (an exception propagates) -/
+def bindE {α β ε : Type} (x : Except ε α) (k : α → Except ε β) : Except ε β :=
+  match x with
+  | .error e => .error e
+  | .ok a => k a
+
+/-- forget the error -/
+def toOpt {ε α : Type} : Except ε α → Option α
+  | .ok a => some a
+  | .error _ => none
+
 /-! ## Names, paths, the tree -/
 
 abbrev Name := List String
@@ -293,6 +304,16 @@ def piecesOf {α : Type} (pre : List α) (mid : List (List α)) (post : List α)
 
 /-! ## Cache-less compilation (C11) -/
 
+/-- the resolution loop of `_process_data_files`: every name is resolved before the first
+file is read -/
+def resolveAll (tree : Tree) (names : List Name) : Except Err (List (Name × Name × FileNode)) :=
+  mapE (fun n => bindE (resolveFile tree n) (fun r => .ok (n, r))) names
+
+/-- the processing loop of `_process_data_files` -/
+def expandAll (g : Name → Name → FileNode → Except Err (List Mapping))
+    (rs : List (Name × Name × FileNode)) : Except Err (List Mapping) :=
+  bindE (mapE (fun r => g r.1 r.2.1 r.2.2) rs) (fun pss => .ok pss.flatten)
+
 /-- `_process_data_file` without caches. `fuel` = remaining recursion depth. -/
 def expandFile : Nat → Tree → List Name → Name → Name → FileNode → Except Err (List Mapping)
   | 0, _, _, _, _, _ => .error .fuel
@@ -304,29 +325,17 @@ def expandFile : Nat → Tree → List Name → Name → Name → FileNode → E
     | .file .error => .error .parse
     | .file .nonMapping => .error .nonMapping
     | .file (.mapping kvs) =>
-      match includeNames (processContent kvs).2.1 with
-      | .error e => .error e
-      | .ok incs =>
-        match mapE (fun i => resolveRelative i resName) incs with
-        | .error e => .error e
-        | .ok names =>
-          match mapE (fun n => (resolveFile tree n).map (fun r => (n, r))) names with
-          | .error e => .error e
-          | .ok rs =>
-            match mapE (fun (r : Name × Name × FileNode) =>
-                    expandFile fuel tree (parents ++ [name]) r.1 r.2.1 r.2.2) rs with
-            | .error e => .error e
-            | .ok pss => .ok (piecesOf (processContent kvs).1 pss.flatten (processContent kvs).2.2)
+      bindE (includeNames (processContent kvs).2.1) fun incs =>
+      bindE (mapE (fun i => resolveRelative i resName) incs) fun names =>
+      bindE (resolveAll tree names) fun rs =>
+      bindE (expandAll (fun n r nd => expandFile fuel tree (parents ++ [name]) n r nd) rs) fun mid =>
+      .ok (piecesOf (processContent kvs).1 mid (processContent kvs).2.2)
 
 /-- `_process_data_files`: resolve every name first, then process the files in order -/
 def expandList (fuel : Nat) (tree : Tree) (parents : List Name) (names : List Name) :
     Except Err (List Mapping) :=
-  match mapE (fun n => (resolveFile tree n).map (fun r => (n, r))) names with
-  | .error e => .error e
-  | .ok rs =>
-    match mapE (fun (r : Name × Name × FileNode) => expandFile fuel tree parents r.1 r.2.1 r.2.2) rs with
-    | .error e => .error e
-    | .ok pss => .ok pss.flatten
+  bindE (resolveAll tree names) fun rs =>
+  expandAll (fun n r nd => expandFile fuel tree parents n r nd) rs
 
 /-- outcome of evaluating one target expression -/
 inductive MatchRes where
@@ -407,12 +416,9 @@ def expandTop (fuel : Nat) (tree : Tree) : Option (List Name) → Except Err (Li
 
 /-- `compile_data` with an empty cache: the data returned by `get_data`, or the error -/
 def compile (cfg : Cfg) (fuel : Nat) (top : TopView) (tree : Tree) : Except Err Mapping :=
-  match processTop cfg.allowEmptyTop top with
-  | .error e => .error e
-  | .ok names =>
-    match expandTop fuel tree names with
-    | .error e => .error e
-    | .ok pieces => foldMerge cfg [] pieces
+  bindE (processTop cfg.allowEmptyTop top) fun names =>
+  bindE (expandTop fuel tree names) fun pieces =>
+  foldMerge cfg [] pieces
 
 /-! ## The three cache layers (C12) -/
 
@@ -530,39 +536,32 @@ def loadFile (vf : VerFns) (W : World) (old : List (Name × CFile)) (st : CState
         | .mapping kvs =>
           .ok (processContent kvs, fv, { st1 with files := (name, ⟨processContent kvs, fv⟩) :: st1.files })
 
+def resolveAllV (tree : VTree) (names : List Name) : Except Err (List (Name × Name × VNode)) :=
+  mapE (fun n => bindE (resolveFileV tree n) (fun r => .ok (n, r))) names
+
+/-- the processing loop of `_process_data_files` with the compile state threaded through -/
+def expandAllC (g : CState → Name → Name → VNode → Except Err (List (Mapping × String) × CState))
+    (st : CState) (rs : List (Name × Name × VNode)) : Except Err (List (Mapping × String) × CState) :=
+  bindE (mapAccE (fun s r => g s r.1 r.2.1 r.2.2) st rs) (fun r => .ok (r.1.flatten, r.2))
+
 /-- `_process_data_file` with `_old_cache` / `_new_cache` -/
 def expandFileC (vf : VerFns) (W : World) (old : List (Name × CFile)) (tree : VTree) :
     Nat → List Name → CState → Name → Name → VNode → Except Err (List (Mapping × String) × CState)
   | 0, _, _, _, _, _ => .error .fuel
   | fuel + 1, parents, st, name, resName, node =>
     if name ∈ parents then .error .cycle else
-    match loadFile vf W old st name node with
-    | .error e => .error e
-    | .ok (parts, fv, st1) =>
-      match includeNames parts.2.1 with
-      | .error e => .error e
-      | .ok incs =>
-        match mapE (fun i => resolveRelative i resName) incs with
-        | .error e => .error e
-        | .ok names =>
-          match mapE (fun n => (resolveFileV tree n).map (fun r => (n, r))) names with
-          | .error e => .error e
-          | .ok rs =>
-            match mapAccE (fun s (r : Name × Name × VNode) =>
-                    expandFileC vf W old tree fuel (parents ++ [name]) s r.1 r.2.1 r.2.2) st1 rs with
-            | .error e => .error e
-            | .ok (pss, st2) => .ok (vpiecesOf parts.1 pss.flatten parts.2.2 fv, st2)
+    bindE (loadFile vf W old st name node) fun l =>
+    bindE (includeNames l.1.2.1) fun incs =>
+    bindE (mapE (fun i => resolveRelative i resName) incs) fun names =>
+    bindE (resolveAllV tree names) fun rs =>
+    bindE (expandAllC (fun s n r nd => expandFileC vf W old tree fuel (parents ++ [name]) s n r nd) l.2.2 rs) fun m =>
+    .ok (vpiecesOf l.1.1 m.1 l.1.2.2 l.2.1, m.2)
 
 def expandListC (vf : VerFns) (W : World) (old : List (Name × CFile)) (tree : VTree) (fuel : Nat)
     (parents : List Name) (st : CState) (names : List Name) :
     Except Err (List (Mapping × String) × CState) :=
-  match mapE (fun n => (resolveFileV tree n).map (fun r => (n, r))) names with
-  | .error e => .error e
-  | .ok rs =>
-    match mapAccE (fun s (r : Name × Name × VNode) =>
-            expandFileC vf W old tree fuel parents s r.1 r.2.1 r.2.2) st rs with
-    | .error e => .error e
-    | .ok (pss, st2) => .ok (pss.flatten, st2)
+  bindE (resolveAllV tree names) fun rs =>
+  expandAllC (fun s n r nd => expandFileC vf W old tree fuel parents s n r nd) st rs
 
 /-- `_process_top` with the cached top entry; returns the entry of the new cache -/
 def processTopC (vf : VerFns) (W : World) (allowEmpty : Bool) (id pdv : String)
@@ -570,12 +569,11 @@ def processTopC (vf : VerFns) (W : World) (allowEmpty : Bool) (id pdv : String)
   | .missing => .error .topMissing
   | .renderError => .error .topRender
   | .text t =>
-    let tv := vf.agg [vf.ver t, pdv]
     match oldTop with
     | some (d, v) =>
-      if v = tv then .ok (d, v)
-      else (topOutcome allowEmpty (W.topParse t id pdv)).map (fun d => (d, tv))
-    | none => (topOutcome allowEmpty (W.topParse t id pdv)).map (fun d => (d, tv))
+      if v = vf.agg [vf.ver t, pdv] then .ok (d, v)
+      else bindE (topOutcome allowEmpty (W.topParse t id pdv)) (fun d => .ok (d, vf.agg [vf.ver t, pdv]))
+    | none => bindE (topOutcome allowEmpty (W.topParse t id pdv)) (fun d => .ok (d, vf.agg [vf.ver t, pdv]))
 
 /-- result of one `compile_data`: data, version, the cache item to keep, whether that item
 is a new object (`new_cache_item is not old_cache_item`), and the read log -/
@@ -592,28 +590,25 @@ def expandTopC (vf : VerFns) (W : World) (old : List (Name × CFile)) (tree : VT
   | none => .ok ([], {})
   | some ns => expandListC vf W old tree fuel [TOPFILE] {} ns
 
+/-- the merge loop and the `"result"` entry: reuse the cached result when the aggregate
+version is unchanged -/
+def finish (cfg : Cfg) (oldI : Item) (topEntry : Option (List Name) × String)
+    (vps : List (Mapping × String)) (st : CState) (dv : String) : Except Err Compiled :=
+  match oldI.result with
+  | some (d, v) =>
+    if v = dv then .ok ⟨d, v, oldI, false, st.reads⟩
+    else bindE (foldMerge cfg [] (vps.map (fun p => p.1))) fun data =>
+      .ok ⟨data, dv, ⟨some topEntry, st.files, some (data, dv)⟩, true, st.reads⟩
+  | none =>
+    bindE (foldMerge cfg [] (vps.map (fun p => p.1))) fun data =>
+      .ok ⟨data, dv, ⟨some topEntry, st.files, some (data, dv)⟩, true, st.reads⟩
+
 /-- `compile_data(system_id, preceding_data, preceding_data_version, old_cache)` -/
 def compileC (vf : VerFns) (W : World) (cfg : Cfg) (fuel : Nat) (id pdv : String) (top : VTop)
     (tree : VTree) (old : Option Item) : Except Err Compiled :=
-  let oldI := old.getD Item.empty
-  match processTopC vf W cfg.allowEmptyTop id pdv oldI.top top with
-  | .error e => .error e
-  | .ok topEntry =>
-    match expandTopC vf W oldI.files tree fuel topEntry.1 with
-    | .error e => .error e
-    | .ok (vps, st) =>
-      let dv := vf.agg (vps.map (fun p => p.2))
-      match oldI.result with
-      | some (d, v) =>
-        if v = dv then .ok ⟨d, v, oldI, false, st.reads⟩
-        else
-          match foldMerge cfg [] (vps.map (fun p => p.1)) with
-          | .error e => .error e
-          | .ok data => .ok ⟨data, dv, ⟨some topEntry, st.files, some (data, dv)⟩, true, st.reads⟩
-      | none =>
-        match foldMerge cfg [] (vps.map (fun p => p.1)) with
-        | .error e => .error e
-        | .ok data => .ok ⟨data, dv, ⟨some topEntry, st.files, some (data, dv)⟩, true, st.reads⟩
+  bindE (processTopC vf W cfg.allowEmptyTop id pdv (old.getD Item.empty).top top) fun topEntry =>
+  bindE (expandTopC vf W (old.getD Item.empty).files tree fuel topEntry.1) fun r =>
+  finish cfg (old.getD Item.empty) topEntry r.1 r.2 (vf.agg (r.1.map (fun p => p.2)))
 
 /-! ## `LRUCache` on an `OrderedDict`, `NullCache` -/
 
